@@ -22,6 +22,7 @@ import IgrisModel.C13.Total2
 import IgrisModel.C13.ShapeMain
 import IgrisModel.C13.ErrBound
 import IgrisModel.C13.Round3
+import IgrisModel.C13.Round3b
 namespace Igris.C13
 open Igris.C06 (Ops NUL)
 
@@ -661,5 +662,179 @@ theorem tie_canon_exact_tie (w u lo : ℚ) (hw : 0 ≤ w) (hpos : 0 < u) (hu : w
   have g1 : ¬ (lo > lo + u / 2) := by linarith
   have g2 : lo + u > lo + u / 2 := by linarith
   simp [hu, hw, g1, g2]
+
+/-! ### Round 3b: `tieSeen` and `digitsOf` are functions of ONE definition (`digitsPre`, Round3b.lean) -/
+
+/-- **digitsOf_eq_pre** — `digitsOf` is its first half `digitsPre` (the lines of print_f up to and including the
+fraction scaling loop, the only part that can diverge or be undefined) followed by the pure second half `digitsPost`
+(roundl, carry, trailing-zero removal, renormalisation): every arithmetic instance, constants, fuel, argument,
+precision, flag set, f/e/g. -/
+theorem digitsOf_eq_pre {α : Type} (A : Arith α) (cfg : Cfg) (fuel : Nat) (r : α) (precision : Int) (ops : Ops)
+    (withExp isShort : Bool) :
+    digitsOf A cfg fuel r precision ops withExp isShort =
+      (digitsPre A cfg fuel r precision ops withExp isShort).map (digitsPost A cfg ops isShort) :=
+  digitsOf_eq_pre_aux A cfg fuel r precision ops withExp isShort
+
+/-- **tieSeen_eq_pre** — the question the tie observable asks (`tieSeen`, Tie.lean: "did the engine see a tie") is a
+question about the SAME state: `tieSeen` = "`digitsPre` returns a state p and the value p.fp it hands to `roundl` has the
+fractional part exactly 1/2".  Together with `digitsOf_eq_pre`: the value `tieSeen` tests is the value `digitsOf`
+rounds; `tieSeen` is no longer a second copy that only the `Tf` fields of the stream tie to the model. -/
+theorem tieSeen_eq_pre {α : Type} (A : Arith α) (cfg : Cfg) (fuel : Nat) (r : α) (precision : Int) (ops : Ops)
+    (withExp isShort : Bool) :
+    tieSeen A cfg fuel r precision ops withExp isShort =
+      (match digitsPre A cfg fuel r precision ops withExp isShort with
+       | .ok p => A.eq (A.fmod p.fp A.one) (A.div A.one (A.ofInt 2))
+       | .error _ => false) :=
+  tieSeen_eq_pre_aux A cfg fuel r precision ops withExp isShort
+
+/-- **tieSeen_of_digitsOf** — the two facts combined: whenever print_f's digit generation returns (`digitsOf = ok d`),
+there is ONE pre-rounding state p with `d = digitsPost p` and `tieSeen = (frac p.fp = 1/2)`; when it does not return,
+`tieSeen` is false (the result field is then `diverged`/`undef`, never `Tf`). -/
+theorem tieSeen_of_digitsOf {α : Type} (A : Arith α) (cfg : Cfg) (fuel : Nat) (r : α) (precision : Int) (ops : Ops)
+    (withExp isShort : Bool) :
+    (∃ p, digitsPre A cfg fuel r precision ops withExp isShort = .ok p ∧
+          digitsOf A cfg fuel r precision ops withExp isShort = .ok (digitsPost A cfg ops isShort p) ∧
+          tieSeen A cfg fuel r precision ops withExp isShort = A.eq (A.fmod p.fp A.one) (A.div A.one (A.ofInt 2))) ∨
+    (∃ e, digitsOf A cfg fuel r precision ops withExp isShort = .error e ∧
+          tieSeen A cfg fuel r precision ops withExp isShort = false) := by
+  rw [digitsOf_eq_pre, tieSeen_eq_pre]
+  cases h : digitsPre A cfg fuel r precision ops withExp isShort with
+  | ok p => exact Or.inl ⟨p, rfl, rfl, rfl⟩
+  | error e => exact Or.inr ⟨e, rfl, rfl⟩
+
+-- non-vacuity: `%.2f` of 1/8 (scaled fraction 12.5: a tie), `%.2f` of 1/4 (25: no tie), exact arithmetic
+example : tieSeen exactA cfgNow 10 (.fin false (1 / 8)) 2 { prec := true } false false = true ∧
+    tieSeen exactA cfgNow 10 (.fin false (1 / 4)) 2 { prec := true } false false = false := by
+  decide +kernel
+
+
+/-! ### Round 3b: the `int` arithmetic of print_f as a statement about print_f itself -/
+
+/-- **print_f_no_int_overflow** — `layoutC_eq_layout` had the sizes of the buffer regions and of the trailing zeros as
+HYPOTHESES; here they are derived from `printF` itself: for every arithmetic instance, every argument (finite or not),
+fuel, flag set, 0 ≤ width, 0 ≤ precision with width + precision ≤ 2 147 481 000 (INT_MAX − 2 647) and each of %f %e, and
+%g without `#`: the evaluation with every `int` expression of the emission part checked (`printFC`) IS `printF` - no
+signed overflow anywhere in `pad_count`, `pc`, `zero_left`.  Ingredients: the buffer `fillBuf` returns uses ≤ 352 bytes
+(`good_fillBuf_used`, from the guards of the code), the precision field is the requested precision (6 by default) for
+%f/%e (`digitsOf_precision_fe`), generated digits ≤ precision (`good_digitsOf`).  `%#g` is excluded: there
+zero_left = P − ((int)ep + 1) − generated and an abstract arithmetic instance may return any `int` for `(int)ep`
+(for binary64 it lies in −4..P, `Total2.lean`; not combined here - open). -/
+theorem print_f_no_int_overflow {α : Type} (A : Arith α) (fuel : Nat) (r : α) (nanNeg : Bool) (width precision : Int)
+    (ops : Ops) (withExp isShort : Bool)
+    (hw : 0 ≤ width) (hp : 0 ≤ precision) (hsum : width + precision ≤ 2147481000)
+    (hg : isShort = false ∨ ops.spec = false) :
+    printFC A cfgNow fuel r nanNeg width precision ops withExp isShort =
+      printF A cfgNow fuel r nanNeg width precision ops withExp isShort := by
+  have hpfx : ∀ (a b c : Bool), (if a then ['-'] else if b then ['+'] else if c then [' '] else ([] : List Char)).length ≤ 3 := by
+    intro a b c; cases a <;> cases b <;> cases c <;> simp
+  have key : ∀ (r0 : α) (pfx : List Char), pfx.length ≤ 3 →
+      (do
+        let d ← digitsOf A cfgNow fuel r0 precision ops withExp isShort
+        let b ← fillBuf A cfgNow ops isShort d
+        let zeroLeft : Int := if isShort && (!cfgNow.repaired || !ops.spec) then 0 else d.precision - d.signCount
+        layoutC cfgNow ops width pfx b zeroLeft : M (List Char × Int)) =
+      (do
+        let d ← digitsOf A cfgNow fuel r0 precision ops withExp isShort
+        let b ← fillBuf A cfgNow ops isShort d
+        let zeroLeft : Int := if isShort && (!cfgNow.repaired || !ops.spec) then 0 else d.precision - d.signCount
+        layout cfgNow ops width pfx b zeroLeft) := by
+    intro r0 pfx hpf
+    cases hd : digitsOf A cfgNow fuel r0 precision ops withExp isShort with
+    | error e => rfl
+    | ok d =>
+      have gd := good_digitsOf A cfgNow rfl fuel r0 precision ops withExp isShort
+      rw [hd] at gd
+      simp only [good_ok] at gd
+      simp only [bind, Except.bind]
+      cases hb : fillBuf A cfgNow ops isShort d with
+      | error e => rfl
+      | ok b =>
+        have gb := good_fillBuf_used A cfgNow rfl cfgNow_fits ops isShort d gd.1
+        rw [hb] at gb
+        simp only [good_ok] at gb
+        have hsz : cfgNow.size = 352 := rfl
+        have hfm : cfgNow.fracMax = 340 := rfl
+        have hrep : cfgNow.repaired = true := rfl
+        simp only [Buf.used] at gb
+        show layoutC cfgNow ops width pfx b _ = layout cfgNow ops width pfx b _
+        rcases hg with h | h
+        · subst h
+          have hpr := digitsOf_precision_fe A cfgNow fuel r0 precision ops withExp d hd
+          simp only [Bool.false_and, Bool.false_eq_true, if_false]
+          apply layoutC_eq_layout cfgNow ops width pfx b _ hw ?_ ?_ hpf (by omega) (by omega)
+          · have g2 := gd.2
+            rw [hpr] at g2 ⊢
+            by_cases hpc : ops.prec = true <;> simp only [hpc, if_true, Bool.false_eq_true, if_false] at g2 ⊢ <;> omega
+          · have g2 := gd.2
+            rw [hpr] at g2 ⊢
+            by_cases hpc : ops.prec = true <;> simp only [hpc, if_true, Bool.false_eq_true, if_false] at g2 ⊢ <;> omega
+        · simp only [h, hrep, Bool.not_true, Bool.not_false, Bool.false_or, Bool.or_true, Bool.and_true]
+          cases isShort
+          · have hpr := digitsOf_precision_fe A cfgNow fuel r0 precision ops withExp d hd
+            simp only [Bool.false_eq_true, if_false]
+            apply layoutC_eq_layout cfgNow ops width pfx b _ hw ?_ ?_ hpf (by omega) (by omega)
+            · have g2 := gd.2
+              rw [hpr] at g2 ⊢
+              by_cases hpc : ops.prec = true <;> simp only [hpc, if_true, Bool.false_eq_true, if_false] at g2 ⊢ <;> omega
+            · have g2 := gd.2
+              rw [hpr] at g2 ⊢
+              by_cases hpc : ops.prec = true <;> simp only [hpc, if_true, Bool.false_eq_true, if_false] at g2 ⊢ <;> omega
+          · simp only [if_true]
+            exact layoutC_eq_layout cfgNow ops width pfx b 0 hw (by omega) (by omega) hpf (by omega) (by omega)
+  unfold printFC printF
+  split
+  · rfl
+  · split
+    · rfl
+    · exact key _ _ (hpfx _ _ _)
+
+example : printFC exactA cfgNow 10 (.fin true (355 / 113)) false 12 3 { prec := true, zero := true } false false =
+    printF exactA cfgNow 10 (.fin true (355 / 113)) false 12 3 { prec := true, zero := true } false false :=
+  print_f_no_int_overflow _ _ _ _ _ _ _ _ _ (by decide) (by decide) (by decide) (Or.inl rfl)
+
+/-- **print_f_count_bound** — the number print_f returns for a finite argument is at most
+max(width, max(precision, 6) + 352): one sign, at most 351 bytes of the 352-byte buffer (integer digits, point,
+generated fraction digits, exponent text), and the trailing zeros that complete the precision.  Every arithmetic
+instance; %f %e, and %g without `#`.  (This is the bound the round-3 notes asked for, `precision + 359`, slightly
+tighter.) -/
+theorem print_f_count_bound {α : Type} (A : Arith α) (fuel : Nat) (r : α) (nanNeg : Bool) (width precision : Int)
+    (ops : Ops) (withExp isShort : Bool) (out : List Char) (pc : Int)
+    (hp : 0 ≤ precision) (hg : isShort = false ∨ ops.spec = false)
+    (hfin : (A.isnan r || A.isinf r) = false)
+    (h : printF A cfgNow fuel r nanNeg width precision ops withExp isShort = .ok (out, pc)) :
+    pc ≤ max width (max precision 6 + 352) := by
+  have hc := print_f_count A fuel r nanNeg width precision ops withExp isShort out pc h
+  obtain ⟨d, b, hd, hb, _, _, hlen⟩ := print_f_layout A fuel r nanNeg width precision ops withExp isShort out pc hfin h
+  have gd := good_digitsOf A cfgNow rfl fuel (if A.signbit r then A.neg r else r) precision ops withExp isShort
+  rw [hd] at gd
+  simp only [good_ok] at gd
+  have gb := good_fillBuf_used A cfgNow rfl cfgNow_fits ops isShort d gd.1
+  rw [hb] at gb
+  simp only [good_ok, Buf.used] at gb
+  have hsz : cfgNow.size = 352 := rfl
+  have hcs := cstrlen_le b.post
+  have hsg : (signText (A.signbit r) ops).length ≤ 1 := by
+    unfold signText; split <;> [simp; (split <;> [simp; (split <;> simp)])]
+  have hz : ((if isShort && !ops.spec then 0 else d.precision - d.signCount : Int).toNat : Int) ≤ max precision 6 := by
+    rcases hg with h1 | h1
+    · subst h1
+      have hpr := digitsOf_precision_fe A cfgNow fuel _ precision ops withExp d hd
+      simp only [Bool.false_and, Bool.false_eq_true, if_false]
+      rw [hpr]
+      by_cases hpc : ops.prec = true <;> simp only [hpc, if_true, Bool.false_eq_true, if_false] <;> omega
+    · cases isShort
+      · have hpr := digitsOf_precision_fe A cfgNow fuel _ precision ops withExp d hd
+        simp only [Bool.false_and, Bool.false_eq_true, if_false]
+        rw [hpr]
+        by_cases hpc : ops.prec = true <;> simp only [hpc, if_true, Bool.false_eq_true, if_false] <;> omega
+      · simp only [h1, Bool.not_false, Bool.and_true, if_true]
+        omega
+  rw [hc, hlen]
+  push_cast
+  omega
+
+example : printF exactA cfgNow 10 (.fin true (355 / 113)) false 12 3 { prec := true, zero := true } false false =
+    .ok ("-0000003.142".toList, 12) ∧ (12 : Int) ≤ max 12 (max 3 6 + 352) := by
+  decide +kernel
 
 end Igris.C13
